@@ -30,6 +30,13 @@ func (f *Frame) call(instr ssa.Instruction, c *ssa.CallCommon, st *State, res ss
 	for _, a := range c.Args {
 		args = append(args, f.val(a, a.Type()))
 	}
+	f.checkAtCall(instr, c, st)
+	if callee := c.StaticCallee(); callee != nil {
+		if st.called == nil {
+			st.called = map[string]Term{}
+		}
+		st.called[f.g.ctx.funcKey(callee)] = boolLit(true)
+	}
 	f.curCallArgs = c.Args
 	vals := f.callCommon(instr, c, st, res, args)
 	f.curCallArgs = nil
@@ -807,6 +814,36 @@ func (f *Frame) ifaceModular(instr ssa.Instruction, c *ssa.CallCommon, ct *Contr
 		g.frameHavoc(st, pos, f.text(pos))
 		g.havocAll(st)
 	} else {
+		// modifies self.*: the fields of the dynamic receiver, for every implementation that can flow into
+		// the interface (closed world over the loaded packages)
+		for _, m := range ct.Modifies {
+			if m != "self.*" {
+				g.specErrs = append(g.specErrs, fmt.Sprintf("%s:%d: interface contracts support only `modifies self.*` (got %q)", ct.File, ct.Line, m))
+				continue
+			}
+			for _, cd := range g.ctx.implementers(c.Value.Type(), c.Method, pkgOf(f.fn)) {
+				pt, ok := under(cd.typ).(*types.Pointer)
+				if !ok {
+					continue
+				}
+				guard := tEq(recv.Comps[0], intLit(tagOf(cd.typ)))
+				lo := recv.Comps[1]
+				gs := st.clone()
+				gs.cond = g.name("c", tAnd(st.cond, guard))
+				g.frameCall(gs, ModEntry{Key: "", Lo: lo, Hi: tAdd(lo, intLit(cellSize(pt.Elem()))), Typ: pt.Elem(), Text: "self.* (" + shortKey(typeKey(cd.typ)) + ")"}, pos, f.text(pos))
+				var ls []leafRef
+				leaves(pt.Elem(), 0, &ls)
+				for _, l := range ls {
+					for i, cmp := range l.Comp {
+						k := compKey(l.Key, i)
+						old := g.heapGet(st, k, arrSort(cmp.Sort))
+						fv := g.freshComp("hv", cmp)
+						g.heapSet(st, k, tIte(guard, tStore(old, tAdd(lo, intLit(l.Off)), fv), old))
+					}
+				}
+			}
+			g.bumpTokAt(st, &recv.Comps[1], true)
+		}
 		w := g.sym("W")
 		g.declare(w, SInt)
 		g.assume(boolLit(true), tCmp(">=", raw(w, SInt), st.W))
@@ -1349,4 +1386,85 @@ func (f *Frame) resolveCapturedClosure(v ssa.Value) (*ssa.Function, []Val, bool)
 		bindings = append(bindings, bv)
 	}
 	return callee, bindings, true
+}
+
+// checkAtCall: `at-call` assertions of the function under verification, evaluated just before the call.
+func (f *Frame) checkAtCall(instr ssa.Instruction, c *ssa.CallCommon, st *State) {
+	g := f.g
+	ct := f.contract
+	if ct == nil || len(ct.AtCall) == 0 {
+		return
+	}
+	src := f.text(instr.Pos())
+	for _, ac := range ct.AtCall {
+		if !strings.Contains(src, ac.Match) {
+			continue
+		}
+		blk := instr.Block()
+		idx := 0
+		for i, in := range blk.Instrs {
+			if in == instr {
+				idx = i
+			}
+		}
+		ev := &Eval{g: g, st: st, old: f.entry, fn: f.fn, pos: instr.Pos(), vars: map[string]Val{}, pkg: pkgOf(f.fn)}
+		ev.lookup = func(name string) (Val, bool) { return f.varBefore(blk, idx, name, instr.Pos(), st) }
+		t, err := ev.evalBool(ac.Clause.Expr)
+		if err != nil {
+			g.specError(ct, ac.Clause, err)
+			continue
+		}
+		g.oblige(st, "at-call", instr.Pos(), src+" :: "+ac.Clause.Text, t)
+	}
+}
+
+// varBefore: value of a source variable just before instruction idx of block blk.
+func (f *Frame) varBefore(blk *ssa.BasicBlock, idx int, name string, pos token.Pos, st *State) (Val, bool) {
+	obj := f.g.ctx.scopeLookup(f.fn, pos, name)
+	cands := map[ssa.Value]bool{}
+	for o, vs := range f.debugVals {
+		if o == obj || (obj == nil && o.Name() == name) {
+			for _, v := range vs {
+				cands[v] = true
+			}
+		}
+	}
+	first := true
+	for b := blk; b != nil; b = b.Idom() {
+		hi := len(b.Instrs) - 1
+		if first {
+			hi = idx - 1
+			first = false
+		}
+		for i := hi; i >= 0; i-- {
+			v, ok := b.Instrs[i].(ssa.Value)
+			if !ok {
+				continue
+			}
+			match := cands[v]
+			if p, ok := v.(*ssa.Phi); ok && !match && p.Comment == name {
+				match = true
+			}
+			if !match {
+				continue
+			}
+			if a, ok := v.(*ssa.Alloc); ok {
+				av := f.val(a, a.Type())
+				return f.g.loadVal(st, av.Comps[0], a.Type().(*types.Pointer).Elem()), true
+			}
+			return f.val(v, v.Type()), true
+		}
+	}
+	for _, p := range f.fn.Params {
+		if p.Name() == name {
+			return f.val(p, p.Type()), true
+		}
+	}
+	for _, fv := range f.fn.FreeVars {
+		if fv.Name() == name {
+			pv := f.val(fv, fv.Type())
+			return f.g.loadVal(st, pv.Comps[0], fv.Type().(*types.Pointer).Elem()), true
+		}
+	}
+	return Val{}, false
 }
